@@ -432,6 +432,10 @@ OPTIONS:
 	}
 
 	//parse options
+	if exp := intf.TimestampResolution.Exponent(); (intf.TimestampResolution.Binary() && exp > 63) || (!intf.TimestampResolution.Binary() && exp > 19) {
+		// the divisor 2^exp or 10^exp does not fit 64 bits (it would wrap to 0)
+		return fmt.Errorf("unsupported timestamp resolution exponent %d", exp)
+	}
 	if intf.TimestampResolution.Binary() {
 		//negative power of 2
 		intf.secondMask = 1 << intf.TimestampResolution.Exponent()
